@@ -25,6 +25,9 @@ typedef struct {
     int rows, cols;
     int mini;		/* reduced universe (3 ports in the quick tier) */
     int unk;		/* universe with unknown standard parameters */
+    int abbr;		/* 1 rows, 2 columns, 3 both: every standard is given
+			   with the abbreviated measurement matrix where
+			   vnacal_new_add_*(3) accepts one */
 } shape_t;
 
 static const shape_t shapes_quick[] = {
@@ -56,6 +59,11 @@ static const shape_t shapes_quick[] = {
     { VNACAL_T16, 2, 2, 0, 1 },  { VNACAL_U16, 2, 2, 0, 1 },
     { VNACAL_UE14, 2, 2, 0, 1 }, { VNACAL_E12, 2, 2, 0, 1 },
     { VNACAL_T8, 1, 2, 0, 1 },   { VNACAL_UE14, 2, 1, 0, 1 },
+    /* abbreviated measurement matrices (reflect on port 2 as a 1x1) */
+    { VNACAL_T8, 2, 2, 0, 0, 3 },   { VNACAL_U8, 2, 2, 0, 0, 3 },
+    { VNACAL_TE10, 2, 2, 0, 0, 3 }, { VNACAL_UE10, 2, 2, 0, 0, 3 },
+    { VNACAL_UE14, 2, 2, 0, 0, 3 }, { VNACAL_E12, 2, 2, 0, 0, 3 },
+    { VNACAL_T16, 2, 2, 0, 0, 1 },  { VNACAL_U16, 2, 2, 0, 0, 2 },
 };
 #define NSHAPE_QUICK ((int)(sizeof(shapes_quick) / sizeof(shapes_quick[0])))
 static const shape_t shapes_more[] = {
@@ -64,6 +72,11 @@ static const shape_t shapes_more[] = {
     { VNACAL_UE14, 3, 3 }, { VNACAL_E12, 3, 3 },
     { VNACAL_T16, 3, 3 },  { VNACAL_U16, 3, 3 },
     { VNACAL_T8, 2, 3 },   { VNACAL_E12, 3, 2 },
+    { VNACAL_T8, 2, 2, 0, 0, 1 },   { VNACAL_U8, 2, 2, 0, 0, 1 },
+    { VNACAL_T8, 2, 2, 0, 0, 2 },   { VNACAL_U8, 2, 2, 0, 0, 2 },
+    { VNACAL_UE14, 2, 2, 0, 0, 1 }, { VNACAL_E12, 2, 2, 0, 0, 2 },
+    { VNACAL_UE10, 3, 3, 1, 0, 3 }, { VNACAL_E12, 3, 3, 1, 0, 3 },
+    { VNACAL_U8, 2, 1, 0, 0, 3 },   { VNACAL_T8, 1, 2, 0, 0, 3 },
 };
 #define NSHAPE_MORE ((int)(sizeof(shapes_more) / sizeof(shapes_more[0])))
 
@@ -101,7 +114,7 @@ static void add_std(cs_scenario *sc, int entry, int np, int p1, int p2,
 }
 
 /* build the universe L for a shape; returns |L| */
-static int universe(cs_scenario *sc, const shape_t *sh, int tier)
+static int universe0(cs_scenario *sc, const shape_t *sh, int tier)
 {
     cs_param p;
     const int P = sh->rows > sh->cols ? sh->rows : sh->cols;
@@ -237,8 +250,32 @@ static int universe(cs_scenario *sc, const shape_t *sh, int tier)
     return sc->nstd;
 }
 
-static int usize[64];
-static long ubase[64];
+static int universe(cs_scenario *sc, const shape_t *sh, int tier)
+{
+    int n = universe0(sc, sh, tier);
+    if (sh->abbr) {
+	const cs_vna *v = &sc->vna;
+	for (int k = 0; k < sc->nstd; ++k) {
+	    cs_std *st = &sc->std[k];
+	    bool rows_ok = true, cols_ok = true;
+	    for (int i = 0; i < st->np; ++i) {
+		if (st->port[i] > v->rows) rows_ok = false;
+		if (st->port[i] > v->cols) cols_ok = false;
+	    }
+	    if (v->type == VNACAL_U16) rows_ok = false;
+	    if (v->type == VNACAL_T16) cols_ok = false;
+	    if (st->np == v->P)
+		continue;		/* nothing to abbreviate */
+	    st->null_map = false;
+	    st->abbrev_rows = (sh->abbr & 1) && rows_ok;
+	    st->abbrev_cols = (sh->abbr & 2) && cols_ok;
+	}
+    }
+    return n;
+}
+
+static int usize[128];
+static long ubase[129];
 
 static long count(int tier)
 {
@@ -260,7 +297,7 @@ static void init(int tier)
 
 /* identifiability cache for the current worker */
 typedef struct { signed char known, ident; short eqs, eqtot, unktot; float margin; } icache_t;
-static icache_t *icache[64];
+static icache_t *icache[128];
 static int g_eqtot, g_unktot;	/* totals of the last classify() */
 
 static void classify(int shp, const cs_scenario *uni, unsigned mask,
@@ -368,7 +405,10 @@ static void run(int tier, long idx, vf_result *r)
 		    i ? "," : "", seq[i]);
 	vf_desc(r, "%s %dx%d universe of %d standards%s, add order [%s], "
 		"solve after each", tname, sh->rows, sh->cols, nL,
-		sh->unk ? " (two unknown reflections)" : "", b);
+		sh->unk ? " (two unknown reflections)" : sh->abbr == 3 ?
+		" (abbreviated rows and columns)" : sh->abbr == 1 ?
+		" (abbreviated rows)" : sh->abbr == 2 ?
+		" (abbreviated columns)" : "", b);
     }
 
     unsigned long mark = vf_exec_begin();
@@ -498,7 +538,8 @@ static void run(int tier, long idx, vf_result *r)
     } else if (n_a + n_b > 0) {
 	r->nontrivial = 1;
     }
-    vf_outcome(r, "%s%s a:%s b:%s fails:%s", tname, sh->unk ? " unk" : "", n_a ? "y" : "n",
+    vf_outcome(r, "%s%s a:%s b:%s fails:%s", tname, sh->unk ? " unk" :
+	    sh->abbr ? " abbr" : "", n_a ? "y" : "n",
 	    n_b ? "y" : "n", n_fail ? (n_ok ? "some" : "all") : "none");
 out:
     cs_delete_params(vcp, &uni);
